@@ -404,6 +404,126 @@ def run_print(ctx, schema):
 
 # ------------------------------------------------------------------------------- composition with the C01 / C07 / C08 models
 
+SORT_NAMES = None     # [(context name, int-sorted?)] in the order of the generated `default_sort_list` (set in run/replay)
+
+
+def load_sort_names(ctx):
+    global SORT_NAMES
+    if SORT_NAMES is None:
+        SORT_NAMES = [(n, bool(b)) for n, b in ctx.model.batch([{"op": "c12.sortlist"}])[0]]
+    return SORT_NAMES
+
+
+def order_key(d):
+    """our own sort key, built from Generated/C12Sort (the model's `keyOf`): int-sorted contexts as numbers, default -1;
+    the others as text, default ''"""
+    return tuple((d.get(n, -1) if isint else str(d.get(n, ""))) for n, isint in SORT_NAMES)
+
+
+def spec_key(d):
+    """the property's own words: file, then sidecar column and key, then row"""
+    return (str(d.get(FILE, "")), str(d.get(SCOL, "")), str(d.get(SKEY, "")), d.get(ROW, -1))
+
+
+def check_order(ctx, issues, case, per_file=False):
+    """ORDER clause: the list AS RETURNED is ordered (returned == stable sort of returned, i.e. no adjacent descent) by the
+    generated key and by (file, sidecar column, sidecar key, row); `per_file`: a dataset's list is the concatenation of its
+    files' sorted lists, so only neighbours of the same file are compared"""
+    ctx.count("order-checked-lists")
+    if len(issues) >= 2 and len({order_key(i) for i in issues}) >= 2:
+        ctx.count("order-checked-lists-with-distinct-keys")
+    for a, b in zip(issues, issues[1:]):
+        if per_file and a.get(FILE) != b.get(FILE):
+            continue
+        try:
+            bad = order_key(b) < order_key(a) or (all(TITLE not in x for x in (a, b)) and spec_key(b) < spec_key(a))
+        except TypeError:
+            ctx.count("order-key-mixed-types")
+            continue
+        if bad:
+            ctx.violation("returned-issues-not-in-sort-order", case,
+                          {"before": [a["code"]] + list(map(str, spec_key(a))), "after": [b["code"]] + list(map(str, spec_key(b))),
+                           "codes": [i["code"] for i in issues][:12]})
+            return False
+    return True
+
+
+def run_groups(rows):
+    """[(row, column), …items] -> runs of equal sort key with their items sorted: the order observable of a table's list"""
+    out = []
+    for kind, sev, row, col in rows:
+        key = [-1 if row is None else row, "" if col is None else col]
+        if out and out[-1][0] == key:
+            out[-1][1].append([kind, sev])
+        else:
+            out.append([key, [[kind, sev]]])
+    return [[k, sorted(v)] for k, v in out]
+
+
+ORDER_TABLES = [  # issues of two different passes, the later pass reporting the earlier row
+    # onset pass: Offset before its Onset on row 2; per-row pass: unknown tag on row 4
+    {"mode": "tabular", "onsets": [8, 16, 24], "cols": [["(Def/A, Offset)", "Red", "Greenish"]], "sidecar": None},
+    {"mode": "tabular", "onsets": [8, 16, 24, 32], "cols": [["(Def/A, Onset)", "(Def/A, Inset), (Def/B, Offset)", "Red/Zork", "Blue, Blue"]],
+     "sidecar": None},
+    # column-structure pass (first): missing category key on row 4; per-row pass: unknown tag on row 2
+    {"mode": "sidecar", "onsets": [8, 16, 24], "cols": [["Greenish", "Red", "Blue"], ["a", "b", "zz"]],
+     "sidecar": {"cat": {"HED": {"a": "Red", "b": "Blue"}}}},
+    {"mode": "sidecar", "onsets": None, "cols": [["Item/Xyz, Red, Red", "Red", "Blue"], ["a", "a", "zz"]],
+     "sidecar": {"cat": {"HED": {"a": "Green", "b": "Blue"}}}},
+    # unordered onsets: ONSETS_UNORDERED (no row) is produced after the row-bearing structure issues
+    {"mode": "sidecar", "onsets": [24, 8, 16], "cols": [["Red", "Greenish", "(Def/A, Offset)"], ["zz", "a", "a"]],
+     "sidecar": {"cat": {"HED": {"a": "Green"}}}},
+    {"mode": "tabular", "onsets": [24, 8, 16], "cols": [["Zork/Q", "(Def/B, Offset)", "Red"]], "sidecar": None},
+]
+
+
+def gen_order_table(rng):
+    """a table that mixes structure (missing key), unordered-onset, per-row and temporal issues, the temporal one early"""
+    n = rng.randint(3, 6)
+    onsets = rng.sample(range(1, 60), n)
+    if rng.random() < 0.6:
+        onsets.sort()
+    hed = [rng.choice(["Red", "Blue", "Green, Square", "Item/Ext" + str(k)]) for k in range(n)]
+    t = rng.randrange(0, n - 1)
+    hed[t] = rng.choice(["(Def/A, Offset)", "(Def/B, Inset)", "(Def/A, Onset), (Def/A, Onset)"])
+    for r in rng.sample(range(t + 1, n), rng.randint(1, n - 1 - t)):
+        hed[r] = rng.choice(["Greenish", "Red/Blue", "Blue, Blue", "Item-count/abc", "(Red"])
+    spec = {"mode": "tabular", "onsets": onsets, "cols": [hed], "sidecar": None}
+    if rng.random() < 0.6:
+        cat = [rng.choice(["a", "b", "n/a"]) for _ in range(n)]
+        cat[rng.randrange(t, n)] = "zz"
+        spec.update(mode="sidecar", cols=[hed, cat], sidecar={"cat": {"HED": {"a": "Triangle", "b": "(Circle, Cross)"}}})
+    return spec
+
+
+def check_dataset_order(ctx, schema):
+    """BidsDataset.validate: per file the sidecar / table validators' sorted lists, concatenated"""
+    import os
+    import shutil
+    import tempfile
+    from hed.tools.bids.bids_dataset import BidsDataset
+    root = tempfile.mkdtemp(prefix="hv_c12_")
+    try:
+        with open(os.path.join(root, "dataset_description.json"), "w") as f:
+            json.dump({"Name": "c12", "BIDSVersion": "1.8.0", "HEDVersion": "8.3.0"}, f)
+        with open(os.path.join(root, "task-x_events.json"), "w") as f:
+            json.dump({"cat": {"HED": {"a": "Red", "b": "Item/Xyz, Blue, Blue"}}, "val": {"HED": "Label/#, Zork/#"}}, f)
+        tables = {"sub-01": [("2.0", "Greenish", "a"), ("1.0", "Red", "zz"), ("3.0", "Blue, Blue", "b")],
+                  "sub-02": [("1.0", "Red", "b"), ("2.0", "Red/Zork", "zz"), ("3.0", "Item/Abc", "a")]}
+        for sub, rows in tables.items():
+            os.makedirs(os.path.join(root, sub))
+            with open(os.path.join(root, sub, f"{sub}_task-x_events.tsv"), "w") as f:
+                f.write("onset\tduration\tHED\tcat\n" + "".join(f"{o}\tn/a\t{h}\t{c}\n" for o, h, c in rows))
+        for warn in (True, False):
+            issues = BidsDataset(root, schema=schema).validate(check_for_warnings=warn)
+            case = {"entry": "dataset", "warnings": warn}
+            ctx.case(("dataset", warn), nontrivial=len(issues) >= 2)
+            ctx.count("order:dataset-issues", len(issues))
+            check_order(ctx, issues, case, per_file=True)
+    finally:
+        shutil.rmtree(root, ignore_errors=True)
+
+
 ROW_GATE = [  # a row whose LAST looked-at cell reports only a warning and whose row-level checks report an error
     {"mode": "sheet", "onsets": None, "cols": [["Item/Xyz, Red, Red", "Red"]], "sidecar": None},
     {"mode": "sheet", "onsets": None, "cols": [["Red", "Blue"], ["Item/Xyz, Red", "Item/Abc, (Onset, Red)"]], "sidecar": None},
@@ -459,7 +579,7 @@ def table_obs(su, spec, w):
     except Exception as e:
         return {"exc": type(e).__name__}
     return {"issues": [[i["code"] + ":" + str(i.get("_kind")), i["severity"], i.get("ec_row"),
-                        None if i.get("ec_column") is None else str(i.get("ec_column"))] for i in issues]}
+                        None if i.get("ec_column") is None else str(i.get("ec_column"))] for i in issues], "raw": issues}
 
 
 def check_closed_table(ctx, su, spec, rq, m):
@@ -488,6 +608,11 @@ def check_closed_table(ctx, su, spec, rq, m):
                 ctx.disagree(f"Flow.Tab.validateClosedW (warnings {name}) = validate (exception)", case, mm.get("exc", "issues"),
                              oo.get("exc", "issues"))
             continue
+        check_order(ctx, oo["raw"], dict(case, warnings=w))
+        # the model's list ends with `sortIssues`: same runs of equal (row, column) in the same order, same items per run
+        if run_groups([i[:4] for i in mm["issues"]]) != run_groups(oo["issues"]):
+            ctx.disagree(f"Flow.Tab.validateClosedW (warnings {name}) = validate: ORDER of the returned list", case,
+                         [g[0] for g in run_groups([i[:4] for i in mm["issues"]])][:12], [g[0] for g in run_groups(oo["issues"])][:12])
         mine = c07.canon_obs([i[:4] for i in mm["issues"]], [], rq["rowAdj"], rq["hasOnset"])
         impl = c07.canon_obs(oo["issues"], [], rq["rowAdj"], rq["hasOnset"])
         if any(i[4] == "row" for i in mm["issues"]):
@@ -507,7 +632,11 @@ def sidecar_obs(doc, schema, dd, w):
                                                                 error_handler=ErrorHandler(check_for_warnings=w))
     except Exception as e:
         return {"raise": type(e).__name__}, None
+    RAW_SIDECAR[w] = issues
     return {"ok": c08.strip_kind([c08.canon_issue(i) for i in issues])}, [c08.canon_issue(i) for i in issues]
+
+
+RAW_SIDECAR = {}
 
 
 def check_closed_sidecar(ctx, su, doc, m):
@@ -517,7 +646,16 @@ def check_closed_sidecar(ctx, su, doc, m):
     if "unmodelled" in m:
         ctx.count("closed-sidecar:skipped-unmodelled")
         return
-    obs = {w: sidecar_obs(doc, su.real.schema, su.real.dd, w) for w in (True, False)}
+    obs = {}
+    for w in (True, False):
+        RAW_SIDECAR.pop(w, None)
+        obs[w] = sidecar_obs(doc, su.real.schema, su.real.dd, w)
+        # `SidecarValidator.validate` sorts on its normal path only; the early return on structure / reference errors hands
+        # back the lists as produced (which path was taken: the model's `early`, C08's correspondence)
+        if w in RAW_SIDECAR and not m.get("early", True):
+            check_order(ctx, RAW_SIDECAR[w], dict(case, warnings=w))
+        elif w in RAW_SIDECAR:
+            ctx.count("order:sidecar-early-exit-not-sorted-by-design")
     ctx.case(("sc", json.dumps(doc)), nontrivial=bool(doc))
     if obs[True][1] is not None and obs[False][1] is not None:
         if obs[False][1] != [i for i in obs[True][1] if i[2] == 1]:
@@ -588,7 +726,8 @@ def run_closed(ctx):
             check_closed_string(ctx, su, t, ph, m)
         ctx.check_time()
     # tables
-    specs = list(ROW_GATE) + list(closed_c07.WITNESS)
+    specs = list(ROW_GATE) + list(ORDER_TABLES) + list(closed_c07.WITNESS)
+    specs += [gen_order_table(ctx.rng) for _ in range(40 if quick else 600)]
     for _ in range(170 if quick else 2500):
         sp = closed_c07.gen_table(ctx.rng, su.gen, su.variant)
         if ctx.rng.random() < 0.35:      # put an extension warning into the last HED-bearing column of some rows
@@ -657,6 +796,8 @@ def run(ctx):
     ctx.extra["rule"] = ("issues produced by string / sidecar / table validation of generated inputs, warnings on and off, with and "
                          "without a caller-supplied handler holding a HED_STRING context, decorated once more; non-trivial = an "
                          "issue carrying character offsets")
+    load_sort_names(ctx)
+    check_dataset_order(ctx, schema)
     reqs, expect = [], []
     strings = ["Red/xyz, Blue", "Duration/3 Seconds", ")("] + gen_strings(ctx, 2500 if ctx.quick() else 40000)
     all_issues = []
@@ -719,6 +860,7 @@ def run(ctx):
     for warn in (True, False):
         iss = sc.validate(schema, error_handler=ErrorHandler(check_for_warnings=warn))
         where = {"entry": "sidecar", "warnings": warn}
+        check_order(ctx, iss, where)
         for i in iss:
             check_issue(ctx, i, where, 1)
         if warn:
@@ -744,6 +886,8 @@ def run(ctx):
             ctx.count(f"table-validate-raised-{type(e).__name__}(C07)")
             continue
         ctx.case(("t", tuple(cells)), nontrivial=bool(on))
+        check_order(ctx, on, dict(where, warnings=True))
+        check_order(ctx, off, dict(where, warnings=False))
         if sorted(map(key_view, off), key=repr) != sorted((key_view(i) for i in on if i["severity"] == 1), key=repr):
             ctx.violation("errors-only-not-the-error-subset", where, {"off": len(off), "on": len(on)})
         for i in on:
@@ -824,7 +968,10 @@ def run(ctx):
     run_closed(ctx)
     ctx.extra["rule"] += ("; + random push/pop/reset/format histories on the real ErrorHandler (type-exact contexts); + issue lists "
                           "with random contexts printed by get_printable_issue_string; + strings / tables / sidecars of the closed "
-                          "C01/C07/C08 generators validated with warnings on and off against Flow.located / Flow.Tab / Flow.Sc")
+                          "C01/C07/C08 generators validated with warnings on and off against Flow.located / Flow.Tab / Flow.Sc; "
+                          "+ ORDER: every list returned by a table / sidecar / dataset entry point is checked, as returned, against our "
+                          "own key built from the generated sort list, on tables mixing structure, unordered-onset, per-row and temporal "
+                          "issues (temporal on the earlier row), and against the order of the closed file model")
 
 
 def replay(ctx, rec):
@@ -833,6 +980,10 @@ def replay(ctx, rec):
     from hed.errors.error_types import ErrorContext
     case = rec.get("case") or (rec.get("disagreements") or [{}])[0].get("case")
     entry = (case or {}).get("entry")
+    load_sort_names(ctx)
+    if entry == "dataset":
+        check_dataset_order(ctx, load_schema_version("8.3.0"))
+        return
     if entry == "history":
         ops = case["ops"]
         a = ctx.model.batch([{"op": "c12.ctx", "w": case["w"], "ops": ops}])[0]
@@ -866,8 +1017,8 @@ def replay(ctx, rec):
             rq = su.real.request(case["spec"], su.variant)
             a = ctx.model.batch([dict(su.env([x for r in rq["rows"] for x in r["cells"]]), op="c12.file", tables=[rq])])[0]
             m = a["answers"][0]
-            print("impl on :", table_obs(su, case["spec"], True))
-            print("impl off:", table_obs(su, case["spec"], False))
+            print("impl on :", table_obs(su, case["spec"], True)["issues"] if "issues" in table_obs(su, case["spec"], True) else "exc")
+            print("impl off:", table_obs(su, case["spec"], False).get("issues", "exc"))
             print("model   :", m)
             check_closed_table(ctx, su, case["spec"], rq, m)
         else:
@@ -886,6 +1037,8 @@ def replay(ctx, rec):
         on, off = old_table(case, schema, True), old_table(case, schema, False)
         print("warnings on :", [key_view(i)[:6] for i in on])
         print("warnings off:", [key_view(i)[:6] for i in off])
+        check_order(ctx, on, dict(case, warnings=True))
+        check_order(ctx, off, dict(case, warnings=False))
         if sorted(map(key_view, off), key=repr) != sorted((key_view(i) for i in on if i["severity"] == 1), key=repr):
             ctx.violation("errors-only-not-the-error-subset", case, {"off": len(off), "on": len(on)})
         for i in on:
